@@ -703,13 +703,14 @@ func VH_ClientHistory() {
 			vAssert(s.starved == starved, "C17/waited-for-an-ack-already-consumed")
 			pending = pending[cut:]
 		case 4: // GetRules (domain: only when no ACK is outstanding)
-			if len(pending) > 0 || closes > 0 || keptFrom != nil {
+			if len(pending) > 0 || closes > 0 {
 				continue
 			}
 			rules, err := c.GetRules()
-			if err == nil {
+			if err == nil && keptFrom == nil {
 				keptRules, keptFrom = rules, s.reqs[before]
 			}
+			// (a later listing returns other rules; what the first one handed out is checked below)
 		case 5: // Close
 			if vParam("sendfail", 0) != 0 && closes == 0 && setPID && vChoose("closesendfails", 2) == 1 {
 				// the request that clears the PID cannot be sent: the socket is closed all the same
